@@ -43,10 +43,10 @@ _Q = [
     _g(MinItems=2, MaxItems=4, NFs="{2, 3}", Hdrs=_set("sep", "joined"), Arbs="{TRUE}", Chunks=_set("event", "byte")),
 ]
 
-# ---- thorough: the products of those dimensions (sampled to 80 k streams, seed = VERIF_SEED)
+# ---- thorough: the products of those dimensions (about 230 k streams, sampled to 200 k, seed = VERIF_SEED)
 _T = [
     _g(MaxItems=4, NFs="{1, 2, 3}", Hdrs=_set("sep", "joined"), Fins=_FINS, FinPoss=_set("own", "last"), Usages=_USAGES,
-       Classes=_set("ascii", "uni"), Chunks=_set("event", "byte", "n7"), Boths=_BOTH2),
+       Classes=_set("ascii", "uni"), Chunks=_set("event", "line", "byte", "n7"), Noises=_set("none", "comment"), Boths=_BOTH2),
     _g(MaxItems=3, NFs="{1, 2, 3}", Hdrs=_set("sep", "joined"), Classes=_CLASSES, Chunks=_CHUNKS, Noises=_NOISES,
        Fins=_set("stop", "none"), FinPoss=_set("own", "last"), Usages=_set("fin", "own")),
     _g(MaxItems=3, NFs="{1, 2}", Hdrs=_set("sep", "joined"), Classes=_set("ascii", "uni"), Mals=_MALS,
@@ -88,7 +88,7 @@ def register(PROPS, HARNESS_PKGS):
             "harness_dirs": ["anthropic"],
             "mc": [{"module": "AnthropicStream", "cfg": "AnthropicStream_mc.cfg"}],
             "quick": {"gen": _Q},
-            "thorough": {"gen": _T, "sample": 80000},
+            "thorough": {"gen": _T, "sample": 200000},
             "pkg": "internal/adapter/translator/anthropic", "test": "TestVerif_AnthropicStream",
             "trace": {"module": "AnthropicStreamTrace", "cfg": "AnthropicStream_trace.cfg"},
             "nontrivial": _nontrivial,
